@@ -38,7 +38,8 @@ for d, _, fs in os.walk(os.path.join(root, 'MW')):
     for f in fs:
         if f.endswith('.lean'):
             rel = os.path.relpath(os.path.join(d, f), root)[:-5].replace(os.sep, '.')
-            mods.append(rel)
+            if not rel.startswith('MW.Audit.') and not rel.startswith('MW.Scratch'):
+                mods.append(rel)
 rt = ''.join('import %s\n' % m for m in sorted(mods))
 rp = os.path.join(root, 'MW.lean')
 if not os.path.exists(rp) or open(rp).read() != rt:
